@@ -126,6 +126,10 @@ def tr_expr(e, cx):
         return tr_block(e['b'], cx)
     if k == 'call':
         f = e['f']
+        if f.get('e') == 'path' and len(e['args']) == 1 and f['segs'][:2] == ['core', 'convert'] and len(f['segs']) == 3 \
+                and re.fullmatch(r'identity(<[\w:]+>)?', f['segs'][2]):
+            # ::core::convert::identity::<T>(x) is x; the type argument is a static check (rustc's), not behaviour
+            return tr_expr(e['args'][0], cx)
         if f.get('e') == 'path' and not f.get('leading_colon'):
             segs = f['segs']
             last = segs[-1]
